@@ -26,7 +26,7 @@ from ..core import hx, unhx, parallel_map, LEAN, BUILD
 from .. import termmodel as T
 
 DRIVERS = ["drv_style"]
-GENERATED = ["StyleGuards", "DecoArms"]     # the rest is found through the imports of Props.C12 / Driver.Style
+GENERATED = ["StyleGuards", "DecoArms", "StyleTables"]     # the rest is found through the imports of Props.C12 / Driver.Style
 
 
 _SIG_COUNT = {}
@@ -2108,7 +2108,7 @@ def corr_decowords(ctx, rep, mdl):
             f = i.split(" ")
             want = decowords_rule(e, "" if d == "-" else d)[0]
             if f[3].split("/")[0] != want:
-                _viol(rep, "decowords:hook:decoration-kind-differs:style-words=%s:deco-words=%s" % (_dw_canon(e), _dw_canon(d)),
+                _viol(rep, "decowords:hook:decoration-kind-differs:style-words=%s" % _dw_canon(e),
                       "the decoration kind is not that of the style string's decoration words (else the decoration option's)",
                       dict(replay, expected=want, got=i))
             if not pl.startswith("ok ") or pl.split(" ")[1:3] != f[1:3]:
